@@ -5,7 +5,7 @@ use crate::suggestion::{Rank, Suggestion};
 use crate::utility::{get_modifiers, smart_quoter, SplittedString, Utility};
 use crate::{context::Method, data::Data, keycodes::keycode_to_char};
 
-const MARKS: &str = "`~!@#$%^+*-_=+\\|\"'/;:,./?><()[]{}\u{0964}\u{0965}";
+const MARKS: &str = "`~!@#$%^&*-_=+\\|\"'/;:,./?><()[]{}\u{0964}\u{0965}";
 
 enum PendingKar {
     I,
